@@ -92,11 +92,12 @@ class Fragment(AbstractApplication):
         # two encoded sizes for fragment, one for payload bstr head
         non_pyld_size = orig_size - payload_size + 3 * pyld_size_enc
         LOGGER.info('Non-payload size %d', non_pyld_size)
-        if non_pyld_size > mtu:
-            raise RuntimeError('Non-payload size {} too large for route MTU {}'.format(orig_size, mtu))
-
+        fragments = []
         frag_offset = 0
-        while frag_offset < len(payload_data):
+        if non_pyld_size > mtu:
+            LOGGER.error('Non-payload size %d too large for route MTU %d', orig_size, mtu)
+            frag_offset = None
+        while frag_offset is not None and frag_offset < len(payload_data):
             fctr = BundleContainer()
             fctr.bundle.primary = ctr.bundle.primary.copy()
             fctr.bundle.primary.bundle_flags |= PrimaryBlock.Flag.IS_FRAGMENT
@@ -122,14 +123,19 @@ class Fragment(AbstractApplication):
             # zero-length payload has one-octet encoded bstr head
             frag_size = mtu - (non_pyld_size - 1 + pyld_size_enc)
             if frag_size <= 0:
-                raise RuntimeError('Payload size {} too large for route MTU {}'.format(frag_size, mtu))
+                LOGGER.error('Payload size %d too large for route MTU %d', frag_size, mtu)
+                fragments = []
+                break
 
             LOGGER.info('Fragment non-payload size %d, offset %d, (max) size %d', non_pyld_size, frag_offset, frag_size)
             frag_data = payload_data[frag_offset:(frag_offset + frag_size)]
             frag_offset += frag_size
 
             fctr.block_num(Bundle.BLOCK_NUM_PAYLOAD).setfieldval('btsd', frag_data)
+            fragments.append(fctr)
 
+        # all or nothing: the original is never sent above the MTU
+        for fctr in fragments:
             glib.idle_add(self._agent.send_bundle, fctr)
 
         # internal action, not delete
